@@ -151,6 +151,32 @@ def mutants(rng, base, tier):
     c['nq'] = 0
     out.append(mk(c, 30, 'redeclare:blowup=P-2-modular'))
     c = copy.deepcopy(base); c['nq'] = 1 << 40; out.append(mk(c, sec, 'nq=2^40'))
+    # cooperating sites: vectors cut short AND every dependent number re-declared so that the shortened description is self-consistent
+    nl = base['nl']
+    for k in range(0, nl - 1):
+        for keep_steps in (True, False):
+            c = copy.deepcopy(base)
+            c['inner'] = c['inner'][:k]
+            if not keep_steps: c['steps'] = c['steps'][:k + 1]
+            lis = sum(base['steps'][1:k + 1]) + base['last'] + base['c']
+            c['lis'] = lis; c['t'] = lis - base['c']
+            for key in ('orig', 'inter', 'comp'): c[key][1] = lis
+            h = lis
+            for i in range(k):
+                h -= base['steps'][i + 1]; c['inner'][i][1] = h
+            out.append(mk(c, min(sec, threshold(c)), f'truncated-consistent:inner={k},steps={"kept" if keep_steps else "cut"}'))
+            c2 = copy.deepcopy(c); c2['steps'] = c2['steps'][:k + 1] + [rng.choice([0, 5, 9, P - 1])] * (nl - 1 - k)
+            out.append(mk(c2, min(sec, threshold(c2)), f'truncated-consistent:inner={k},trailing-steps-out-of-range'))
+    # several fields at once (random), verdict by the oracle and by the model
+    for _ in range(30 if tier == 'quick' else 300):
+        c = copy.deepcopy(base)
+        for __ in range(rng.choice([2, 2, 3])):
+            pth = rng.choice(paths)
+            val = rng.choice([0, 1, 2, 3, 4, 5, 15, 16, 17, rng.below(40), P - 1])
+            if len(pth) == 1: c[pth[0]] = val
+            elif len(pth) == 2: c[pth[0]][pth[1]] = val
+            else: c[pth[0]][pth[1]][pth[2]] = val
+        out.append(mk(c, rng.choice([0, sec]), 'multi-field'))
     return out
 
 
